@@ -114,6 +114,11 @@ func (e *Engine) Check(src, dst, proto, port string) CallResult {
 	return res
 }
 
+// Clear calls ClearResources: afterwards the engine holds no object at all.
+func (e *Engine) Clear() CallResult {
+	return guard(func() error { e.PE.ClearResources(); return nil })
+}
+
 func (e *Engine) CacheHits() int { return e.PE.VerifCacheHits() }
 func (e *Engine) CacheLen() int  { return e.PE.VerifCacheLen() }
 
